@@ -452,7 +452,10 @@ class BasicVisitor(NodeVisitor):
 
     def visit_num_literal(self, node, visited_children):
         num_literal = node.full_text[node.start : node.end].replace(" ", "")
-        return BasicLiteral(float(num_literal))
+        unsigned = num_literal.lstrip("+-")
+        signs = num_literal[: len(num_literal) - len(unsigned)]
+        sign = "-" if signs.count("-") % 2 else ""
+        return BasicLiteral(float(sign + unsigned))
 
     def visit_int_literal(self, node, visited_children):
         num_literal = node.full_text[node.start : node.end].replace(" ", "")
